@@ -46,6 +46,26 @@ def render(name, s, e, nlook, shape=None):
         # the other thread's whole call falls inside ours: A.START B.START B.END A.END
         evs = [E.ev(name, 1, s), E.ev(name, 1, s, tid=2), E.ev(name, 2, (0x9a, 0x9b9b, 0x9c9c, 0x9d9d), tid=2)] + mid + [E.ev(name, 2, e)]
         judged = len(evs) - 1
+    if shape == 'with-related-records':
+        # every code of the table whose name starts with this call's name (BSC_mmap_extended_info, ...) nested in the window with words
+        # that are nobody's result
+        base = name[:-len('_nocancel')] if name.endswith('_nocancel') else name
+        rel = [E.ev(code, 0, (0x1_0000_4000, 0x2_0000_0001, 0x7fff_ffff_ffff, 9)) for code, nm in sorted(E.codes().items())
+               if nm.startswith(base) and nm not in (base, base + '_nocancel') and (code & 3) == 0 and nm not in p.handlers]   # undecoded ones only
+        evs = evs[:1] + rel + evs[1:]
+        judged = len(evs) - 1
+        out = [t for t in p.feed_generator(E.restamp(evs)) if t.ktraces[0].eventid == E.n2i(name) and t.ktraces[-1].timestamp == judged]
+        return E.stable_str(out[0]) if len(out) == 1 else None
+    if shape == 'nested-then-orphan-end':
+        # our call nested in another one; after both have ended, an END of our call whose START is not in the dump: it prints nothing
+        oth = 'BSC_getppid' if name != 'BSC_getppid' else 'BSC_getpid'
+        evs = [E.ev(oth, 1, (0x9a9a, 0x9b9b, 0x9c9c, 0x9d9d))] + evs
+        judged = len(evs) - 1
+        evs = evs + [E.ev(oth, 2, (0x9a, 0x9b9b, 0x9c9c, 0x9d9d)), E.ev('MACH_WAIT', 0, (0x10, 0, 0, 0)), E.ev(name, 2, (0x9a, 0x9b9b, 0x9c9c, 0x9d9d))]
+        out = [t for t in p.feed_generator(E.restamp(evs)) if t.ktraces[-1].eventid == E.n2i(name)]
+        if len(out) != 1 or out[0].ktraces[-1].timestamp != judged:
+            return None
+        return E.stable_str(out[0])
     if shape in ('same-thread-crossing', 'start-without-end-after'):
         oth = 'BSC_getppid' if name != 'BSC_getppid' else 'BSC_getpid'
         if shape == 'same-thread-crossing':
@@ -92,7 +112,7 @@ def judge_decoder(name, starts, nlooks, acc, full=True):
             for err in (ERRS if full or si == 0 else (0, 2, 9999, M64)):
                 for ret in RETS:
                     for tail in TAILS:
-                      for shape in ((None, 'long', 'crossing', 'enclosing', 'odd-timestamps', 'other-open-inside', 'other-open-before', 'same-thread-crossing', 'start-without-end-after') if (err in (0, 2, 9999) and ret in (0x55, M64) and tail == TAILS[1] and si == 0) else (None,)):
+                      for shape in ((None, 'long', 'crossing', 'enclosing', 'odd-timestamps', 'other-open-inside', 'other-open-before', 'same-thread-crossing', 'start-without-end-after', 'with-related-records', 'nested-then-orphan-end') if (err in (0, 2, 9999) and ret in (0x55, M64) and tail == TAILS[1] and si == 0) else (None,)):
                         e = (err, ret) + tail
                         case = {'decoder': name, 'start': [hex(x) for x in s], 'end': [hex(x) for x in e], 'lookups': nlook, 'shape': shape}
                         try:
@@ -162,7 +182,7 @@ class C10(Check):
             '9999, 2^31, 2^32, 2^63, 2^64-1} x return word {0,1,10,0x55,1000,2^31,2^63,2^64-1} x words 2,3 {(0,0),(0x66,0x77)} x '
             'lookups in window {6 (quick); 0 and 6 (thorough)}; for 12 END tuples per decoder also a window with 5000 stand-alone '
             'same-thread records between START and END, and crossing / enclosing windows (another thread inside the same call with other END '
-            'words: A.START B.START A.END B.END and A.START B.START B.END A.END, parser built with a populated thread map), a window whose nested records carry the END tick or later ticks, and windows with another call of the same thread (its END lost) still open, opened inside / before ours, overlapping ours without nesting, and with the dump ending inside the next call of the same kind (no END: nothing more may be printed). Oracle: error!=0 => result part is exactly ", errno: NAME(code)" '
+            'words: A.START B.START A.END B.END and A.START B.START B.END A.END, parser built with a populated thread map), a window whose nested records carry the END tick or later ticks, and windows with another call of the same thread (its END lost) still open, opened inside / before ours, overlapping ours without nesting, and with the dump ending inside the next call of the same kind (no END: nothing more may be printed), followed by an orphan END of the same call after a nesting, and with every table code whose name starts with the name of the call nested in the window. Oracle: error!=0 => result part is exactly ", errno: NAME(code)" '
             'or ", errno: code" with that code; error==0 => no errno, every number shown renders END word 1..3; call part '
             'identical across END tuples; result part identical across START tuples. Distinct by construction; non-trivial = '
             'error word non-zero or a success value is shown.')
